@@ -17,7 +17,8 @@ EXPLANATION = (
     "are read, not recomputed differently: species / find_source_sink / grain_groups derive from _reactants, _products and the declared extra "
     "species only; R5 removal by positions removes exactly those positions and the de-duplicating callers pass positions (shared with C15.R4); "
     "R6 every property view of Network is recomputed on each read, or, if it memoises, every method that writes one of its inputs resets the memo; "
-    "R7 no command installs a persistent allowed_species filter on a network it goes on adding reactions to.")
+    "R7 no command installs a persistent allowed_species filter on a network it goes on adding reactions to; R8 no reaction is lost before it reaches "
+    "the filter: the pre-processing hook the formats inherit from Reaction returns every line it is given (shared with C07.R1).")
 ASSUMPTIONS = [
     "equivalence with a reference model after arbitrary histories (order of reactions after re-filtering, identity of removed duplicates) is not decided",
 ]
@@ -42,6 +43,20 @@ def check(ctx):
     _r4_callers(ctx, pkg, "R5")
     _r6(ctx, pkg)
     _r7(ctx, pkg)
+    # "it holds every added reaction whose species are all allowed": a reaction handed over as text reaches the filter of _add_reaction
+    # only if the line survives the format's pre-processing -- the base hook every format but KROME inherits keeps EVERY line
+    # (a line beginning with the surface prefix '#' is a reaction, not a comment).  Shared with C07.R1.
+    from .c07 import _r1 as line_flow
+    from ..core import AnalysisError
+
+    def identity_only(sub):
+        try:
+            line_flow(sub, package(sub.tree))
+        except AnalysisError as e:
+            # another obligation of C07.R1 lost its anchor: C07's business -- unless the base hook itself was never reached
+            if not any(o.key == "Reaction.preprocessing:identity" for o in sub.obs):
+                sub.unrec("R1", "Reaction.preprocessing:identity", e.where or ("naunet/reactions/reaction.py", 0), f"the base pre-processing hook could not be read: {e}")
+    ctx.absorb(identity_only, "R8", only=lambda o: o.key == "Reaction.preprocessing:identity" and o.outcome != "MISSING")
 
 
 def _aliases(fl, attr_ir):
@@ -1170,3 +1185,8 @@ MUTANTS += [{"name": "products-updated-only-when-reactants-are-new", "file": NF,
              "new": "        if new_reactants:\n            self._reactants.update(new_reactants)\n            self._products.update(new_products)\n", "rules": ["R1", "R2"]}]
 BENIGN += [{"name": "setter-clears-the-lists-in-place", "file": NF, "old": "        self.reaction_list = []\n        self._skipped_reactions = []\n\n        for reaction in recorded_reactions:",
             "new": "        self.reaction_list.clear()\n        self._skipped_reactions.clear()\n\n        for reaction in recorded_reactions:"}]
+
+# --- third hardening wave ---------------------------------------------------------------------------------------------------------
+RXF = "naunet/reactions/reaction.py"
+MUTANTS += [{"name": "base-preprocessing-drops-hash-lines", "file": RXF, "old": '        """\n\n        return line\n', "new": '        """\n\n        if line.startswith("#"):\n            return ""\n\n        return line\n', "rules": ["R8"]}]
+BENIGN += [{"name": "base-preprocessing-returns-through-a-local", "file": RXF, "old": '        """\n\n        return line\n', "new": '        """\n\n        kept = line\n        return kept\n'}]
